@@ -15,7 +15,7 @@ def preamble_value(ctx, maxitems):
     _PRE[maxitems] = ml[0][4:]
     return _PRE[maxitems]
 
-def gen(rng, n, kinds=("name", "fd"), comps=("none", "gzip", "xz")):
+def gen(rng, n, kinds=("name", "fd"), comps=("none", "gzip", "xz"), big=False):
     out = []
     fixed = [
         {"kind": "name", "comp": "none", "max": 3, "ops": [("qr", b"\x03www", 1), ("qr", b"\x03www", 2), ("wb",), ("rot", 1), ("qr", b"\x01a", 3), ("counts",)], "end": True},
@@ -27,10 +27,10 @@ def gen(rng, n, kinds=("name", "fd"), comps=("none", "gzip", "xz")):
         if f["kind"] in kinds and f["comp"] in comps: out.append(f)
     while len(out) < n:
         ops = []
-        for _ in range(rng.choice([1, 3, 6, 12, 40])):
+        for _ in range(rng.choice([12, 25, 40]) if big else rng.choice([1, 3, 6, 12, 40])):
             r = rng.random()
             if r < 0.62:
-                ln = rng.choice([1, 1, 3, 30, 120, 250])
+                ln = rng.choice([30, 120, 250, 250]) if big else rng.choice([1, 1, 3, 30, 120, 250])
                 ops.append(("qr", bytes([min(ln, 63)]) + bytes(rng.choice(b"abcxyz") for _ in range(ln)), rng.randrange(0, 70000)))
             elif r < 0.76: ops.append(("wb",))
             elif r < 0.92: ops.append(("rot", rng.choice([0, 1, 1])))
@@ -146,3 +146,53 @@ def section(ctx, scs, prefix, crash=False, against_plain=False):
             if why: fails.append((cid, case, why[0], il[-10:]))
     return cases, diffs, fails, {"exporter_histories_on_writer": len(cases), "exporter_crash_points": ncrash,
                                  "exporter_output_events": sum(c["meta"]["ops"] for c in cases)}
+
+def fault_section(ctx, rng, n, prefix="f"):
+    """exporter histories on a plain descriptor output with the k-th write(2) of the scenario rejected once (FAILONCE), cut short once (SHORTONCE)
+    or rejected from then on (FAILFROM), for EVERY k, followed by a recovery attempt (rotate_output to a fresh descriptor, write_block, counts)
+    and destruction: the outcome of every call (returned count / exception), the counters and what every descriptor finally holds must be what
+    the model of the exporter under faults (coq/ExporterFaults.v: fstep / fdestroy) computes.  Returns (cases, diffs, stats)."""
+    from concurrent.futures import ThreadPoolExecutor
+    import random
+    scs = []
+    for i in range(n):
+        sc = gen(rng, 6, kinds=("fd",), comps=("none",), big=(i % 3 != 2))[-1]; sc["end"] = True; scs.append((i, sc, rng.getrandbits(32)))
+    for m in sorted(set(sc["max"] for _, sc, _ in scs)): preamble_value(ctx, m)
+    def ins(s, pfx):
+        s = list(s); s[len(s) - 1:len(s) - 1] = [pfx + " " + e for e in ("rot 90 0", "wb", "counts")]; return s
+    def one(job):
+        i, sc, seed = job
+        r = random.Random(seed)
+        a, b = scripts(ctx, sc)
+        il, files, rc = common.run_w(ctx["impl"]["drvw"], a)
+        nw = sum(1 for l in il if l.startswith("ev write "))
+        out = []
+        for k in range(1, nw + 2):
+            for plan in ("FAILONCE %d" % k, "SHORTONCE %d %d" % (k, r.choice([1, 5, 100, 2047])), "FAILFROM %d" % k):
+                a2 = ins(a[:1] + [plan] + a[1:-1], "X"); b2 = ins(b[:1] + [plan] + b[1:-1], "XW") + ["XW files"]
+                il2, files2, rc2 = common.run_w(ctx["impl"]["drvw"], a2)
+                ml2 = common.run_model_lines(ctx["mdl"], b2)
+                ri = [l for l in il2 if not l.startswith("ev ") and l != "endtrace"]
+                rm = [l for l in ml2 if not l.startswith(("ev ", "file ")) and l != "endtrace"]
+                fm = {l.split()[1]: (l.split()[2] if len(l.split()) > 2 and l.split()[2] != "-" else "") for l in ml2 if l.startswith("file ")}
+                fi = {k2: v.hex() for k2, v in files2.items() if k2.startswith("fd")}
+                d = None
+                if rc2 != 0: d = "the real stack ended with exit status %d" % rc2
+                elif ri != rm:
+                    j = next((t for t, (x, y) in enumerate(zip(ri, rm)) if x != y), min(len(ri), len(rm)))
+                    d = "call %d (%s): real stack %r, model %r" % (j, a2[j][:40] if j < len(a2) else "?", ri[j:j + 1], rm[j:j + 1])
+                else:
+                    bad = [k2 for k2, v in fm.items() if fi.get(k2) != v] + [k2 for k2, v in fi.items() if k2 not in fm and v]   # (a descriptor opened for a rotation that threw stays empty)
+                    if bad: d = "descriptor %s finally holds %d bytes, the model says %d" % (bad[0], len(fi.get(bad[0], "")) // 2, len(fm.get(bad[0], "")) // 2)
+                threw = sum(1 for l in ri if l.startswith("throw"))
+                out.append((plan, a2, d, threw))
+        return i, sc, out
+    cases, diffs, nthrow = [], [], 0
+    with ThreadPoolExecutor(max_workers=common.NPROC) as ex:
+        for i, sc, out in ex.map(one, scs):
+            for plan, a2, d, threw in out:
+                cid = "%s%d-%s" % (prefix, i, plan.replace(" ", "_"))
+                case = {"id": cid, "script": a2, "meta": {"kind": "exporter-faults/" + plan.split()[0]}}
+                cases.append(case); nthrow += 1 if threw else 0
+                if d: diffs.append((cid, case, "exporter under faults: " + d))
+    return cases, diffs, {"exporter_fault_scenarios": len(cases), "of_which_an_api_call_threw": nthrow}
